@@ -663,7 +663,8 @@ class HGen:
                             cands.append((h2, kcol, rc))
             if not cands:
                 return
-            h2, kcol, rc = r.choice(cands)
+            same_cte = [c for c in cands if self.heap[h1]["embedded"] & self.heap[c[0]]["embedded"] and c[0] != h1]
+            h2, kcol, rc = r.choice(same_cte if same_cte and r.random() < 0.6 else cands)
             out = {kcol: "int", **{c: t for c, t in c1.items() if c != kcol},
                    **{c + "_r": self.heap[h2]["cols"][c] for c in rc}}
             sig = self.heap[h1]["taint"] or self.heap[h2]["taint"] or \
@@ -725,6 +726,16 @@ CORPUS = [
     [("sqlq", {"ctes": [], "main": ("sel", ("join", ("name", "bt"), "x", ("name", "bt"), "y", ("bin", "Eq", ("col", "x.q"), ("col", "y.q"))), [],
                                     [(("col", "x.q"), "q")], False)}),
      ("joinb", 5, 5, "q", []), ("joinb", 6, 5, "q", [])],
+    # re-registration with the same columns in another order, then SELECT * (the column ORDER must follow the new frame)
+    [("reg", "v", 0), ("sqlq", {"ctes": [], "main": ("sel", ("name", "v"), [], None, False)}), ("reg", "V", 3),
+     ("sqlq", {"ctes": [], "main": ("sel", ("name", "v"), [], None, False)}), ("table", "v")],
+    # two session.sql results that both use a CTE called c1, with different bodies, joined
+    [("reg", "v", 0),
+     ("sqlq", {"ctes": [("c1", ("sel", ("name", "v"), [("bin", "Gt", ("col", "a"), ("lit", 1))], [(("col", "a"), "a"), (("col", "b"), "b")], False))],
+               "main": ("sel", ("name", "c1"), [], [(("col", "a"), "a"), (("col", "b"), "b")], False)}),
+     ("sqlq", {"ctes": [("C1", ("sel", ("name", "v"), [("bin", "Le", ("col", "a"), ("lit", 2))], [(("col", "a"), "a"), (("col", "b"), "b")], False))],
+               "main": ("sel", ("name", "c1"), [], [(("col", "a"), "a"), (("col", "b"), "b")], False)}),
+     ("joinb", 5, 6, "a", ["b"]), ("joinb", 6, 5, "a", ["b"]), ("obs", 5), ("obs", 6)],
     [("reg", "v", 0), ("reg", "v", 1), ("sqlq", {"ctes": [], "main": ("sel", ("name", "v"), [], None, False)}),
      ("sqlq", {"ctes": [], "main": ("sel", ("name", "v"), [], [(("col", "a"), "a"), (("col", "s"), "s")], False)})],
 ]
